@@ -577,6 +577,7 @@ func (w *worker) explore(res *workerResult) {
 				continue
 			}
 			w.reportViolation(res, rc, seed, uint64(i))
+			w.writeSigs(res, sigs)
 
 			return
 		}
@@ -610,6 +611,10 @@ func (w *worker) explore(res *workerResult) {
 		}
 	}
 
+	w.writeSigs(res, sigs)
+}
+
+func (w *worker) writeSigs(res *workerResult, sigs map[uint64]struct{}) {
 	res.Distinct = int64(len(sigs))
 	if p := os.Getenv("VERIF_SIGFILE"); p != "" {
 		b := make([]byte, 0, 8*len(sigs))
